@@ -38,7 +38,51 @@ def gen_cases(seed, tier):
     for _ in range(25 if tier == "quick" else 300):
         cases.append({"kind": "lineage", "seed": rng.randint(1, 2**31), "splitter": rng.choice(["perfect", "general", "lineage"]), "how": rng.choice(["pickle", "deepcopy"]),
                       "growth": rng.choice([0.3, 0.6]), "div": rng.choice([1.8, 2.2]), "k": rng.choice([0.5, 1.0])})
+    # cell states (the records handed from mother to daughter, and what a lineage is continued from): every field survives a copy,
+    # for every value of the fields -- including 0.0 for the current time / volume next to a non-zero birth time (seeded change S3_C17)
+    for _ in range(40 if tier == "quick" else 400):
+        cases.append({"kind": "cellstate", "how": rng.choice(["pickle", "deepcopy", "pickle_twice"]), "cls": rng.choice(["lineage", "lineage", "volume", "delayvolume"]),
+                      "v0": rng.choice([0.5, 1.0, 2.5]), "t0": rng.choice([-3.0, -1.0, 0.0, 0.0, 2.0]), "volume": rng.choice([None, 0.0, 1.25, 3.0]), "time": rng.choice([None, 0.0, 0.0, 0.5, 4.0]),
+                      "state": [float(rng.randint(0, 9)) for _ in range(rng.randint(1, 4))], "divided": rng.choice([-1, 0, 2]), "dead": rng.choice([-1, -1, 1]), "seed": rng.randint(1, 2**31)})
     return cases
+
+def _cellstate_case(case):
+    import numpy as np
+    from bioscrape.lineage import LineageVolumeCellState
+    from bioscrape.simulator import VolumeCellState
+    if case["cls"] == "lineage":
+        kw = {"v0": case["v0"], "t0": case["t0"], "state": np.array(case["state"]), "divided": case["divided"], "dead": case["dead"]}
+        if case["volume"] is not None: kw["volume"] = case["volume"]
+        if case["time"] is not None: kw["time"] = case["time"]
+        cs = LineageVolumeCellState(**kw)
+        def get(c):
+            g = c.__getstate__()       # (initial_volume, initial_time, state, volume, time, divided, dead): the flags have no Python getter
+            return {"time": float(c.py_get_time()), "volume": float(c.py_get_volume()), "t0": float(c.py_get_initial_time()), "v0": float(c.py_get_initial_volume()),
+                    "state": np.asarray(c.py_get_state()).tolist(), "divided": int(g[5]), "dead": int(g[6])}
+    elif case["cls"] == "volume":
+        cs = VolumeCellState(time=case["time"] if case["time"] is not None else 0.0, state=np.array(case["state"]), volume=case["volume"] if case["volume"] is not None else case["v0"])
+        get = lambda c: {"time": float(c.py_get_time()), "volume": float(c.py_get_volume()), "state": np.asarray(c.py_get_state()).tolist()}
+    else:
+        from bioscrape.simulator import DelayVolumeCellState, ArrayDelayQueue
+        q = ArrayDelayQueue.setup_queue(2, 4, 0.5); q.py_add_reaction(0.7, 1, 2.0)
+        cs = DelayVolumeCellState(time=case["time"] if case["time"] is not None else 0.0, state=np.array(case["state"]), volume=case["volume"] if case["volume"] is not None else case["v0"], queue=q)
+        def qdump(c):
+            qq = c.py_get_delay_queue()
+            if qq is None: return None
+            c2_ = qq.py_copy(); out_ = [float(c2_.py_get_next_queue_time())]
+            for _ in range(4):
+                a_ = np.zeros(2); c2_.py_get_next_reactions(a_); out_ += [float(v) for v in a_]; c2_.py_advance_time()
+            return out_
+        get = lambda c: {"time": float(c.py_get_time()), "volume": float(c.py_get_volume()), "state": np.asarray(c.py_get_state()).tolist(), "has_queue": c.py_get_delay_queue() is not None, "queue": qdump(c)}
+    c2 = _dup(cs, case["how"]); a, b = get(cs), get(c2)
+    out = {"problems": []}
+    want_time = case["time"] if case["time"] is not None else (case["t0"] if case["cls"] == "lineage" else 0.0)
+    if a["time"] != want_time: out["problems"].append("cell state: constructed with time=%r (birth time %r) but reports time %r" % (case["time"], case["t0"], a["time"]))
+    for k in a:
+        if a[k] != b[k]: out["problems"].append("cell state: field %s: original %r copy %r (%s)" % (k, a[k], b[k], case["how"]))
+    c2.py_set_state(np.array(case["state"]) + 1.0)
+    if get(cs)["state"] != a["state"]: out["problems"].append("independence: editing the copied cell state changed the original")
+    return out
 
 def _observe(M, points, V=2.0):
     import numpy as np
@@ -82,6 +126,7 @@ def impl_case(case):
     import numpy as np, warnings
     warnings.simplefilter("ignore")
     if case["kind"] == "lineage": return _lineage_case(case)
+    if case["kind"] == "cellstate": return _cellstate_case(case)
     M = G.build_model(case["spec"], initialize=(case["when"] != "uninitialised"))
     has_delay = any("delay" in rx for rx in case["spec"]["reactions"])
     if case["when"] == "after_sim": _sim(M, 3, has_delay)
@@ -172,7 +217,7 @@ def oracle(case, r):
     return [p for p in r["problems"]][:3] or None
 def site(case, msg): return (msg or "any").split(":")[0].split(" of ")[0][:40]
 def nontrivial(case):
-    if case["kind"] == "lineage": return True
+    if case["kind"] in ("lineage", "cellstate"): return True
     return any(rx["type"] == "general" or "delay" in rx for rx in case["spec"]["reactions"]) or bool(case["spec"].get("rules"))
 def key(case): return json.dumps(case, sort_keys=True)
 def stats(cases):
